@@ -273,10 +273,12 @@ class OctetStringEncoder(AbstractItemEncoder):
             asn1Spec = asn1Spec.clone(tagSet=tagSet)
 
         pos = 0
+        octets = substrate
         substrate = null
 
         while True:
-            chunk = value[pos:pos + maxChunkSize]
+            # chunk up serialized octets, not characters of the value
+            chunk = octets[pos:pos + maxChunkSize]
             if not chunk:
                 break
 
